@@ -237,9 +237,15 @@ int sqfs_data_reader_get_block(sqfs_data_reader_t *data,
 {
 	size_t i, unpacked_size;
 	sqfs_u64 off, filesz;
+	int err;
 
-	sqfs_inode_get_file_block_start(inode, &off);
-	sqfs_inode_get_file_size(inode, &filesz);
+	err = sqfs_inode_get_file_block_start(inode, &off);
+	if (err)
+		return err;
+
+	err = sqfs_inode_get_file_size(inode, &filesz);
+	if (err)
+		return err;
 
 	if (index >= sqfs_inode_get_file_block_count(inode))
 		return SQFS_ERROR_OUT_OF_BOUNDS;
@@ -264,10 +270,16 @@ int sqfs_data_reader_get_fragment(sqfs_data_reader_t *data,
 	sqfs_u64 filesz;
 	int err;
 
-	sqfs_inode_get_file_size(inode, &filesz);
-	sqfs_inode_get_frag_location(inode, &frag_idx, &frag_off);
 	*size = 0;
 	*out = NULL;
+
+	err = sqfs_inode_get_file_size(inode, &filesz);
+	if (err)
+		return err;
+
+	err = sqfs_inode_get_frag_location(inode, &frag_idx, &frag_off);
+	if (err)
+		return err;
 
 	block_count = sqfs_inode_get_file_block_count(inode);
 
@@ -309,9 +321,17 @@ sqfs_s32 sqfs_data_reader_read(sqfs_data_reader_t *data,
 		size = 0x7FFFFFFE;
 
 	/* work out file location and size */
-	sqfs_inode_get_file_size(inode, &filesz);
-	sqfs_inode_get_frag_location(inode, &frag_idx, &frag_off);
-	sqfs_inode_get_file_block_start(inode, &off);
+	err = sqfs_inode_get_file_size(inode, &filesz);
+	if (err)
+		return err;
+
+	err = sqfs_inode_get_frag_location(inode, &frag_idx, &frag_off);
+	if (err)
+		return err;
+
+	err = sqfs_inode_get_file_block_start(inode, &off);
+	if (err)
+		return err;
 	block_count = sqfs_inode_get_file_block_count(inode);
 
 	if (offset >= filesz)
